@@ -5,7 +5,9 @@ import (
 	"crypto/rand"
 	"fmt"
 	"io"
+	"runtime"
 	"strings"
+	"time"
 
 	"github.com/ja7ad/otp"
 	"github.com/ja7ad/otp/verifharness/ev"
@@ -43,6 +45,24 @@ type c08Case struct {
 	Choices []int  `json:"short_read_choices,omitempty"`
 	Strings bool   `json:"render_enum_values_first,omitempty"`
 	AppDef  int    `json:"application_assigned_defaults,omitempty"` // k > 0: the exported default parameter structs hold variant k
+	GC      bool   `json:"collect_garbage_and_run_finalizers_after_every_call,omitempty"`
+}
+
+// collectAndFinalize is the environment event "a garbage collection happens and every pending finalizer runs",
+// made deterministic: two rounds of (collect, wait until a sentinel registered before the collection has been
+// finalized - finalizers run one after the other on one goroutine).
+func collectAndFinalize() {
+	for round := 0; round < 2; round++ {
+		done := make(chan struct{})
+		s := new([32]byte)
+		runtime.SetFinalizer(s, func(*[32]byte) { close(done) })
+		s = nil
+		runtime.GC()
+		select {
+		case <-done:
+		case <-time.After(5 * time.Second):
+		}
+	}
 }
 
 // secretHistory runs a history of RandomSecret calls on one stream and checks every result.
@@ -82,7 +102,16 @@ func secretHistory(c c08Case, x *xplore.X) (obs, bad string) {
 		if p := try(func() { s, err = otp.RandomSecret(otp.Algorithm(a)) }); p != "" {
 			return obs + "panic:" + p, "panicked: " + p
 		}
-		obs += fmt.Sprintf("[%d:%s|%s|%d]", a, s, errStr(err), rr.off-before)
+		obs += fmt.Sprintf("[%d:%s|%s|%d]", a, strings.Clone(s), errStr(err), rr.off-before)
+		sNow := strings.Clone(s)
+		if c.GC {
+			// whatever the library has arranged to happen "once nobody needs this any more" happens now, while the
+			// caller still holds the secret
+			collectAndFinalize()
+			if s != sNow {
+				return obs, fmt.Sprintf("call %d: the secret read %q when it was returned and reads %q after a garbage collection (the caller still holds it)", i, sNow, s)
+			}
+		}
 		n := ref.HashLen(a)
 		if n == 0 {
 			if err == nil || s != "" {
@@ -340,6 +369,12 @@ func c08(r *ev.Run) {
 			fail(sig, c, nil, obs, bad)
 		}
 		r.DistinctS(obs)
+	}
+	// garbage collections with finalizers between the calls of a history, the caller holding every secret
+	for a := 0; a < 5; a++ {
+		for b := 0; b < 5; b++ {
+			run(fmt.Sprintf("history with collections [%d %d]", a, b), c08Case{Algos: []int{[]int{0, 1, 2, 3, 255}[a], []int{0, 1, 2, 3, 255}[b], []int{0, 1, 2, 3, 255}[a]}, Stream: tag, GC: true})
+		}
 	}
 	for a := 0; a < 3; a++ {
 		// 256 constant streams, the position-tag stream, every single-position substitution
